@@ -674,7 +674,20 @@ def r6_for_continue(lines, origin, repo, relfile):
     return out, oo, notes
 
 
+def rshadow(lines, origin, repo, relfile):
+    """fn NAME(  ->  fn NAME__shadow(   for the first fn of the item: a second, separately verified copy of a
+    function whose own contract is assumed (used to verify the body up to an internal assertion)"""
+    out = list(lines)
+    for i, l in enumerate(out):
+        mm = re.search(r'\bfn (\w+)', l)
+        if mm and rustscan.code_mask(l)[mm.start()]:
+            out[i] = l[:mm.start(1)] + mm.group(1) + '__shadow' + l[mm.end(1):]
+            return out, list(origin), ["RSHADOW %s:%d fn %s verified a second time as %s__shadow (body check of a function whose contract is assumed)" % (relfile, origin[i], mm.group(1), mm.group(1))]
+    raise RewriteError("RSHADOW: no fn found")
+
+
 RULES = {
+    'RSHADOW': rshadow,
     'R8': r8_loop_brace,
     'R9': r9_iter_inherent,
     'R0': r0_name_return,
